@@ -22,10 +22,18 @@
 #ifndef VP_FLAT_LINE_OBJ
 #define VP_FLAT_LINE_OBJ (VP_FLAT_CAP + 1)
 #endif
+#ifndef VP_FLAT_NRANGES
+#define VP_FLAT_NRANGES 8
+#endif
 struct evbuffer {
 	unsigned char d[VP_FLAT_CAP];
 	size_t off, end; /* content = d[off, end) */
 	int in_use;
+	/* VP_FLAT_RANGES (optional, for parsers fed from one immutable stream buffer): bytes moved out of a
+	 * buffer marked is_stream are not copied; the receiving buffer records (stream offset, length)
+	 * ranges and only its length grows.  Saves the symbolic-offset byte copies. */
+	int is_stream;
+	size_t nr, r_off[VP_FLAT_NRANGES], r_len[VP_FLAT_NRANGES];
 };
 static struct evbuffer vp_flat_pool[VP_FLAT_NBUF];
 static int vp_flat_overflow;
@@ -37,6 +45,7 @@ struct evbuffer *evbuffer_new(void)
 		if (!vp_flat_pool[i].in_use) {
 			vp_flat_pool[i].in_use = 1;
 			vp_flat_pool[i].off = vp_flat_pool[i].end = 0;
+			vp_flat_pool[i].is_stream = 0; vp_flat_pool[i].nr = 0;
 			return &vp_flat_pool[i];
 		}
 	}
@@ -74,6 +83,7 @@ int evbuffer_add_printf(struct evbuffer *b, const char *fmt, ...)
 int evbuffer_drain(struct evbuffer *b, size_t n)
 {
 	size_t have = b->end - b->off;
+	if (b->is_stream) { b->off += n > have ? have : n; return 0; } /* keep absolute offsets */
 	if (n >= have) { b->off = b->end = 0; }
 	else b->off += n;
 	return 0;
@@ -83,6 +93,15 @@ int evbuffer_remove_buffer(struct evbuffer *src, struct evbuffer *dst, size_t n)
 {
 	size_t have = src->end - src->off;
 	if (n > have) n = have;
+#ifdef VP_FLAT_RANGES
+	if (src->is_stream) {
+		VP_ASSERT(dst->nr < VP_FLAT_NRANGES, "http_flatbuf: too many ranges (harness bound VP_FLAT_NRANGES)");
+		if (n > 0 && dst->nr < VP_FLAT_NRANGES) { dst->r_off[dst->nr] = src->off; dst->r_len[dst->nr] = n; dst->nr++; }
+		dst->end += n; /* length only */
+		src->off += n; /* a stream buffer is never compacted: offsets stay absolute */
+		return (int)n;
+	}
+#endif
 	evbuffer_add(dst, src->d + src->off, n);
 	evbuffer_drain(src, n);
 	return (int)n;
